@@ -32,7 +32,7 @@ for sid in ids:
     try:
         c = meta["property"]
         t0 = time.time()
-        rc, o = sh("cd /verif && %s./check %s quick" % (repo_env, c))
+        rc, o = sh("cd %s && %s./check %s quick" % (os.environ.get("VERIF_ROOT", "/verif"), repo_env, c))
         lines = [l for l in o.splitlines() if l.startswith(("VIOLATION", "KNOWN-FINDING", "ENGINE-ERROR", "OK "))]
         meta["checks_quick"] = {c: {"exit": rc, "lines": lines[:6], "wall_s": round(time.time() - t0)}}
         meta["detected_by"] = [c] if rc == 1 else []
